@@ -387,6 +387,8 @@ def response_problem(resp):
             if len(resp) != 4 or not isinstance(resp[3], list) or len(resp[3]) % 2:
                 return f'FETCH is not followed by one list of name/value pairs: {resp[3:]!r}'[:300]
             items = resp[3]
+            if not items:
+                return 'FETCH () carries no data item: msg-att has at least one'
             for k in range(0, len(items), 2):
                 name, v = (atom(items[k]) or b'').upper(), items[k + 1]
                 if name in (b'UID', b'RFC822.SIZE', b'MODSEQ') and not (_is_number(v) and (name != b'UID' or int(v.val) > 0)):
